@@ -310,7 +310,7 @@ class FrameBase(DaskMethodsMixin):
     def _meta(self):
         return self.expr._meta
 
-    @functools.cached_property
+    @property
     def _meta_nonempty(self):
         return meta_nonempty(self._meta)
 
